@@ -10,6 +10,7 @@ open AbtemVerif AbtemVerif.Proto AbtemVerif.Scan AbtemVerif.Grid
    line  <start pt> <stop pt> <norm> <gpts none|int> <sampling none|rat> <endpoint T|F> <ops ~ | G=int;S=rat;A=x,y,norm;B=x,y,norm>
                             -> ok <gpts> <sampling> <positions x:y;x:y… | err:kind> <axis s,o,e | err:kind> <axis coords | err:kind>
    coords <offset> <sampling> <n>  -> ok <rats> | err <kind>
+   custom <x:y,x:y,…|_>            -> ok <n> <shape> <positions> <axis values | none>
 -/
 
 def pt? (s : String) : Option (Option (Rat × Rat)) :=
@@ -113,6 +114,16 @@ def handle : List String → String
       | .ok c => "ok " ++ showList showRat c
       | .error k => "err " ++ k
     | _, _, _ => "bad-op"
+  | ["custom", pts] =>
+    let ps? : Option (List (Rat × Rat)) := if pts = "_" then some [] else (pts.splitOn ",").mapM fun t =>
+      match t.splitOn ":" with
+      | [x, y] => do let x ← parseRat? x; let y ← parseRat? y; pure (x, y)
+      | _ => none
+    match ps? with
+    | some ps =>
+      let c : CustomScan := ⟨ps⟩
+      s!"ok {(customPositions c).length} {showList toString (customShape c)} {showList showPt (customPositions c)} {showOpt (showList showPt) (customAxisValues c)}"
+    | none => "bad-op"
   | _ => "bad-op"
 
 def main : IO Unit := serve handle
